@@ -296,10 +296,55 @@ def run(ctx):
         ctx.ok("C20.R6", "net_if_addrs:broadcast",
                sample="the Windows broadcast address is bound to the record")
     ctx.ok("C20.R6", "pure-calls", sample=f"{nchecked} pure-call results are bound/returned")
-    # MAC padding flows into the record
-    txt = norm_stmt(nia.node)
-    if "addr += f'{separator}00'" in txt and "snicaddr(fam, addr, mask, broadcast, ptp)" in txt:
-        ctx.ok("C20.R6", "net_if_addrs:mac-padding", nontrivial=False)
+    # MAC padding flows into the record: the variable in the address slot of the
+    # snicaddr(...) record is the one a padding loop (`while v.count(sep) < 5:
+    # v += ...`) extends - inline, or in a helper whose result is bound to it
+    def padded_vars(fnode):
+        out = set()
+        for w in ast.walk(fnode):
+            if not isinstance(w, ast.While):
+                continue
+            cnt = [c for c in ast.walk(w.test) if isinstance(c, ast.Call)
+                   and isinstance(c.func, ast.Attribute) and c.func.attr == "count"
+                   and isinstance(c.func.value, ast.Name)]
+            for c in cnt:
+                v = c.func.value.id
+                if any(isinstance(a, ast.AugAssign) and isinstance(a.op, ast.Add)
+                       and isinstance(a.target, ast.Name) and a.target.id == v
+                       or isinstance(a, ast.Assign) and len(a.targets) == 1
+                       and isinstance(a.targets[0], ast.Name) and a.targets[0].id == v
+                       and isinstance(a.value, ast.BinOp) and isinstance(a.value.op, ast.Add)
+                       and isinstance(a.value.left, ast.Name) and a.value.left.id == v
+                       for b in w.body for a in ast.walk(b)):
+                    out.add(v)
+        return out
+    padders = {}
+    for g in repo.all_funcs("psutil"):
+        if g is nia or g.parent is not None and g.parent is not nia:
+            continue
+        pv = padded_vars(g.node)
+        rets = [r.value for r in ast.walk(g.node) if isinstance(r, ast.Return) and r.value is not None]
+        params = [a.arg for a in g.node.args.args]
+        if pv and rets and all(isinstance(r, ast.Name) and r.id in pv for r in rets) \
+                and any(v in params for v in pv):
+            padders[g.name] = params.index(next(v for v in params if v in pv))
+    slot = set()
+    for c in calls_in(nia.node):
+        if (dotted(c.func) or "").split(".")[-1] == "snicaddr" and len(c.args) >= 2 \
+                and isinstance(c.args[1], ast.Name):
+            slot.add(c.args[1].id)
+    flows = padded_vars(nia.node) & slot
+    for st in ast.walk(nia.node):
+        if isinstance(st, ast.Assign) and len(st.targets) == 1 \
+                and isinstance(st.targets[0], ast.Name) and st.targets[0].id in slot \
+                and isinstance(st.value, ast.Call):
+            nm = (dotted(st.value.func) or "").split(".")[-1]
+            if nm in padders and len(st.value.args) > padders[nm]:
+                flows.add(st.targets[0].id)
+    ctx.require(slot, "net_if_addrs(): the snicaddr(...) record construction vanished")
+    if flows:
+        ctx.ok("C20.R6", "net_if_addrs:mac-padding", nontrivial=False,
+               sample=f"padded `{sorted(flows)[0]}` is the address slot of snicaddr")
     else:
         ctx.fail("C20.R6", "net_if_addrs:mac-padding", nia.file, nia.node.lineno, nia.qual,
                  "the padded MAC address no longer flows into the snicaddr record")
